@@ -1,6 +1,7 @@
 package wire
 
 import (
+	"time"
 	"context"
 	"log/slog"
 
@@ -386,4 +387,68 @@ func VerifH09t() {
 	vAssert("a-later-connection-does-not-inherit-an-earlier-one's-types", !foundLater)
 	vAssert("both-rows-delivered", vCount(vTypes(c1.out), 'D') == 1 && vCount(vTypes(c2.out), 'D') == 1 && vWireOK(c2.out))
 	vReach("type-registered-by-an-earlier-connection")
+}
+
+// ---------------------------------------------------------------------------
+// H09z — a value reaches the encoder as the handler gave it (C09): a
+// time.Time in a Location of its own (UTC+2, thirty minutes past midnight —
+// another calendar day in UTC) written into a timestamp, date, time or
+// timestamptz column, text or binary. pgx encodes timestamp/date/time from the
+// wall clock in the value's own Location, so the field the client receives must
+// be what the connection's type map encodes for THAT value — compared here with
+// Encode of the handler's value through the same map.
+// ---------------------------------------------------------------------------
+func VerifH09z() {
+	columnOid := []oid.Oid{oid.T_timestamp, oid.T_date, oid.T_time, oid.T_timestamptz}[vChoose(4)]
+	format := FormatCode(vChoose(2))
+	tv := time.Unix(1710023400, 0).In(time.FixedZone("+02", 2*60*60)) // 2024-03-10 00:30:00 +02
+	var want []byte
+	var wantErr error
+	stmt := func(ctx context.Context, dw DataWriter, params []Parameter) error {
+		want, wantErr = TypeMap(ctx).Encode(uint32(columnOid), int16(format), tv, nil)
+		if err := dw.Row([]any{tv}); err != nil {
+			return err
+		}
+		return dw.Complete("SELECT 1")
+	}
+	parse := func(ctx context.Context, query string) (PreparedStatements, error) {
+		return Prepared(NewStatement(stmt, WithColumns(Columns{{Name: "c", Oid: columnOid}}))), nil
+	}
+	srv, err := NewServer(parse, MessageBufferSize(64))
+	vAssert("newserver-ok", err == nil)
+	w := &vWorld{srv: srv}
+	if format == BinaryFormat {
+		// (binary results are requested through Bind)
+		w.conn = vNewConn(vCat(vMsgBytes('P', vCat(vCStr(nil), vCStr([]byte("q")), vU16(0))),
+			vMsgBytes('B', vCat(vCStr(nil), vCStr(nil), vU16(0), vU16(0), vU16(1), vU16(1))),
+			vMsgBytes('E', vCat(vCStr(nil), vU32(0)))))
+	} else {
+		w.conn = vNewConn(vMsgBytes('Q', vCStr([]byte("q"))))
+	}
+	w.ses, w.rd, w.wr = vSession(srv, w.conn)
+	w.ctx = vCtx(srv)
+	steps := 1
+	if format == BinaryFormat {
+		steps = 3
+	}
+	for i := 0; i < steps; i++ {
+		_, e := w.step()
+		vAssert("connection-stays-up", e == nil)
+	}
+	vAssert("reference-encoding-ok", wantErr == nil && len(want) > 0)
+	msgs, ok := vFrames(w.conn.out)
+	vAssert("wire-wellformed", ok)
+	found := false
+	for _, m := range msgs {
+		if m.typ != 'D' {
+			continue
+		}
+		found = true
+		b := m.body
+		vAssert("one-field", len(b) >= 6 && vBE16(b, 0) == 1)
+		n := int(b[2])<<24 | int(b[3])<<16 | int(b[4])<<8 | int(b[5])
+		vAssert("the-field-is-the-encoding-of-the-handler's-value", n == len(want) && len(b) == 6+n && vEqBytes(b[6:], want))
+	}
+	vAssert("row-delivered", found)
+	vReach("zoned-time-value-written")
 }
